@@ -3,15 +3,16 @@ package main
 // JSON shapes of the "program" family: scenarios in, results out.
 
 type pMsgSpec struct {
-	U    *int        `json:"u,omitempty"`
-	B    string      `json:"b,omitempty"`
-	S    string      `json:"s,omitempty"`
-	Cmds []*pCmdSpec `json:"cmds,omitempty"`
-	OK   *bool       `json:"ok,omitempty"` // exec: default true
-	CB   bool        `json:"cb,omitempty"`
-	Read int         `json:"read,omitempty"`
-	W    int         `json:"w,omitempty"`
-	H    int         `json:"h,omitempty"`
+	U     *int        `json:"u,omitempty"`
+	B     string      `json:"b,omitempty"`
+	S     string      `json:"s,omitempty"`
+	Cmds  []*pCmdSpec `json:"cmds,omitempty"`
+	OK    *bool       `json:"ok,omitempty"` // exec: default true
+	CB    bool        `json:"cb,omitempty"`
+	Pause bool        `json:"pause,omitempty"` // exec: block inside the command until released (label exec:<idx>)
+	Read  int         `json:"read,omitempty"`
+	W     int         `json:"w,omitempty"`
+	H     int         `json:"h,omitempty"`
 }
 
 type pCmdSpec struct {
@@ -64,6 +65,9 @@ type pView struct {
 	PanicAt *int    `json:"panic_at,omitempty"`
 	PauseAt *int    `json:"pause_at,omitempty"`
 	Text    *string `json:"text,omitempty"`
+	// pause (and optionally panic in) the first View that follows the Update of this message key; label view:after:<key>
+	PauseAfter string `json:"pause_after,omitempty"`
+	PanicAfter string `json:"panic_after,omitempty"`
 }
 
 type pStep struct {
